@@ -442,7 +442,17 @@ func (e *Engine) scalar(v Val) Sc {
 func (e *Engine) eqVal(a, b Val, t types.Type) string {
 	switch x := a.(type) {
 	case Sc, PtrVal, FuncVal:
-		return e.sc.eqS(e.scalar(a).T, e.scalar(b).T)
+		sa, sb := e.scalar(a), e.scalar(b)
+		if sa.S == SStr {
+			// comparison with the empty string is a comparison of the length with 0
+			if sb.T == "str_empty" {
+				return eq(app("gs_len", sa.T), bvLit(0, 64))
+			}
+			if sa.T == "str_empty" {
+				return eq(app("gs_len", sb.T), bvLit(0, 64))
+			}
+		}
+		return e.sc.eqS(sa.T, sb.T)
 	case StructVal:
 		y := b.(StructVal)
 		st := under(t).(*types.Struct)
@@ -584,7 +594,7 @@ func (e *Engine) storeLeaf(h Heap, p PtrVal, suffix, leaf, v string) {
 		return sto(arr, ixs[k], build(inner, k+1))
 	}
 	var nt string
-	if e.guard != "true" && !e.isFresh(p.Base) {
+	if e.needGuard(p.Base) {
 		// store on a possibly not executed path: keep the old value unless the block is reached
 		oldv := sel(cur, p.Base)
 		for _, ix := range ixs {
@@ -615,7 +625,7 @@ func (e *Engine) rawLoad(h Heap, c *component, base string, ixs []string) string
 
 func (e *Engine) rawStore(h Heap, c *component, base string, ixs []string, v string) {
 	cur := e.heapGet(h, c)
-	if e.guard != "true" && !e.isFresh(base) {
+	if e.needGuard(base) {
 		oldv := sel(cur, base)
 		for _, ix := range ixs {
 			oldv = sel(oldv, ix)
@@ -677,7 +687,13 @@ func (e *Engine) load(h Heap, p PtrVal, t types.Type) Val {
 		}
 		return sv
 	case *types.Slice:
-		return SliceVal{e.loadLeaf(h, p, ".arr", SRef), e.loadLeaf(h, p, ".off", SI64), e.loadLeaf(h, p, ".len", SI64)}
+		sv := SliceVal{e.loadLeaf(h, p, ".arr", SRef), e.loadLeaf(h, p, ".off", SI64), e.loadLeaf(h, p, ".len", SI64)}
+		if len(e.sc.binders) == 0 && !isBVLit(sv.Len) {
+			// invariants of every Go slice value: 0 <= len (bounded by memory), nil has length 0
+			e.sc.assume(and(app("bvsge", sv.Len, bvLit(0, 64)), app("bvslt", sv.Len, bvLit(1<<40, 64)), app("bvsge", sv.Off, bvLit(0, 64)), app("bvslt", sv.Off, bvLit(1<<40, 64)),
+				implies(eq(sv.Arr, bvLit(0, 32)), eq(sv.Len, bvLit(0, 64)))))
+		}
+		return sv
 	case *types.Interface:
 		return IfaceVal{e.loadLeaf(h, p, ".tag", STag), e.loadLeaf(h, p, ".ref", SRef), e.loadLeaf(h, p, ".str", SStr), e.loadLeaf(h, p, ".bv", SI64)}
 	case *types.Array:
@@ -707,7 +723,7 @@ func (e *Engine) store(h Heap, p PtrVal, t types.Type, v Val) {
 		cur := e.heapGet(h, c)
 		ixs := idxTerms(p.Path)
 		val := e.scalar(v).T
-		if e.guard != "true" && !e.isFresh(p.Base) {
+		if e.needGuard(p.Base) {
 			oldv := sel(cur, p.Base)
 			for _, ix := range ixs {
 				oldv = sel(oldv, ix)
@@ -780,12 +796,26 @@ func (e *Engine) alloc() string {
 		e.loopAllocN[e.allocBase]++
 		t := app("bvadd", e.allocBase, bvLit(uint64(e.loopAllocN[e.allocBase]), 32))
 		e.sc.fresh[t] = true
+		e.allocReach[t] = e.guard
 		return t
 	}
 	e.nalloc++
 	t := bvLit(uint64(0x80000000)+uint64(e.nalloc), 32)
 	e.sc.fresh[t] = true
+	e.allocReach[t] = e.guard
 	return t
 }
 
 func (e *Engine) isFresh(t string) bool { return e.sc.fresh[t] }
+
+// needGuard: a store must be guarded by the reach condition of the current block
+// unless it initialises an object allocated under that very condition.
+func (e *Engine) needGuard(base string) bool {
+	if e.guard == "true" {
+		return false
+	}
+	if e.sc.fresh[base] && e.allocReach[base] == e.guard {
+		return false
+	}
+	return true
+}
